@@ -5,7 +5,7 @@ from concurrent.futures import ProcessPoolExecutor, wait, FIRST_COMPLETED
 
 VERIF = os.path.dirname(os.path.dirname(os.path.abspath(__file__)))
 REPO = os.environ.get('VERIF_REPO', '/repo')
-SAN = 'signed-integer-overflow,integer-divide-by-zero,shift,bounds,float-cast-overflow,float-divide-by-zero,bool,enum,return,unreachable'
+SAN = 'signed-integer-overflow,integer-divide-by-zero,shift,bounds,float-cast-overflow,bool,enum,return,unreachable'   # float division by zero is IEEE-defined (inf/nan), not trapped
 
 def sh(cmd, **kw):
     return subprocess.run(cmd, stdout=subprocess.PIPE, stderr=subprocess.PIPE, text=True, **kw)
@@ -31,7 +31,7 @@ def compile_ir(h, work):
         if r.returncode != 0: raise RuntimeError('llvm-link failed for %s:\n%s' % (h['name'], r.stderr[-3000:]))
         os.replace(base + '.l.ll', base + '.0.ll')
         for o in extra: os.unlink(o)
-    r = sh(['opt-14', '-S', '-passes=sroa,simplifycfg', '-phi-node-folding-threshold=4', base + '.0.ll', '-o', base + '.ll'])
+    r = sh(['opt-14', '-S', '-passes=' + os.environ.get('VERIF_OPT_PASSES', 'mem2reg,simplifycfg'), '-phi-node-folding-threshold=4', base + '.0.ll', '-o', base + '.ll'])
     if r.returncode != 0: raise RuntimeError('opt failed for %s:\n%s' % (h['name'], r.stderr[-2000:]))
     os.unlink(base + '.0.ll')
     return base + '.ll'
